@@ -5,7 +5,7 @@ ID = "C11"
 TITLE = "forest extraction: subset, productive, minimal, one rule per class, closed, reverse rules last"
 COQ_PROPS = "Props/C11.v"
 COQ_RUN = ("Forest.ExtractorRun", "run_c11")
-GEN_TARGETS = []
+GEN_TARGETS = ["minimize_order"]   # Forest/GenBridgeExtractor.v
 N = {"quick": 5000, "thorough": 100000}
 RULE = (
     "integer universes: 2-25 forest keys over 1-9 labels, shifts in [-2,3], arity 0-3, random bucket "
@@ -212,7 +212,20 @@ def extra_checks(ctx):
             if cnt != true:
                 res.append(("forest spec counts %r" % (pats,), False, "failing input: %r vs %r" % (cnt, true)))
     res.append(("every extracted key of %d real forest searches is re-created by _find_rule" % n, True, "%d keys" % n))
-    return res
+    from harness import gen_selftest
+
+    return res + [gen_selftest.rejects(_BAD_SNIPPETS)] + gen_selftest.checks(GEN_TARGETS, ctx.seed, ID)
+
+
+# source texts outside the translator's subset / with a changed shape: each must be REJECTED (fail closed)
+_BAD_SNIPPETS = [
+    ("minimize_order", "class ForestRuleExtractor:\n    MINIMIZE_ORDER = (RuleBucket.REVERSE, RuleBucket.NORMAL, RuleBucket.UNDEFINED)\n",
+     "a bucket the model does not number"),
+    ("minimize_order", "class ForestRuleExtractor:\n    MINIMIZE_ORDER = tuple(RuleBucket)\n", "computed constant"),
+    ("minimize_order", "class ForestRuleExtractor:\n    MINIMIZE_ORDER = (RuleBucket.REVERSE,)\n"
+     "    MINIMIZE_ORDER = (RuleBucket.NORMAL,)\n", "assigned twice"),
+    ("minimize_order", "class ForestRuleExtractor:\n    def __init__(self):\n        self.MINIMIZE_ORDER = ()\n", "no class-level constant"),
+]
 
 
 TECHNIQUE = "Coq proof (loop invariants of the minimisation over a proved-correct productivity test) + extracted-model/implementation correspondence"
@@ -243,4 +256,10 @@ LEVEL_NOTE = (
     "check()) is kept. Closedness and one-rule-per-class are also decided per instance by the oracle. _find_rule is "
     "exercised on real searches only. Termination is a theorem about the model (C03 layer A table method inside the "
     "extractor model); the real code's termination follows only through the correspondence."
+)
+
+
+# translator tie (DESIGN.md 10.9): what the regenerated definitions add to the level
+LEVEL_NOTE += (
+    " The bucket order ForestRuleExtractor.MINIMIZE_ORDER is RE-TRANSLATED from forest.py on every run (buckets numbered as in the model and the harness) and the model's `minimize` is proved to be the loop `for key in MINIMIZE_ORDER: _minimize_key(key)` over that constant (C11_minimize_order_is_source; Forest/GenBridgeExtractor.v)."
 )
